@@ -167,10 +167,16 @@ func checkC11(w *SketchWorld, slot int) (fails []mc.Fail) {
 			}
 		}
 	}
-	for _, p := range qs {
+	batch, berr := q.GetValuesAtQuantiles(qs)
+	for qi, p := range qs {
 		y, err := q.GetValueAtQuantile(p)
 		if err != nil {
 			fails = append(fails, mc.Fail{Clause: "C11.rank", Detail: fmt.Sprintf("q=%v refused on a sketch of total weight %v: %v", p, W, err)})
+			return
+		}
+		if berr != nil || math.Float64bits(batch[qi]) != math.Float64bits(y) {
+			// the batch query is judged through the single query: it must give the same answers
+			fails = append(fails, mc.Fail{Clause: "C11.batch", Detail: fmt.Sprintf("%s, %s store, absorbed (value,weight) %v, total %v: GetValuesAtQuantiles answers %v at q=%v, GetValueAtQuantile answers %v (err %v)", md.Spec, sl.Store, md.Ent, W, batch, p, y, berr)})
 			return
 		}
 		r := p * (W - 1)
